@@ -47,6 +47,22 @@ def main():
                         for extra in (False, True):
                             cases.append({"kind": "state", "init": init, "targets": [target], "auto_after": k,
                                           "extra": extra, "transport": transport})
+            # slow drive: commanded transitions show only after some further statusword reads
+            for init in STATES:
+                for target in STATES[1:6]:
+                    for lag in ((1, 2, 4) if transport == "sdo" else ()):
+                        cases.append({"kind": "state", "init": init, "targets": [target], "auto_after": 0, "lag": lag,
+                                      "extra": False, "transport": transport})
+            # histories with a slow drive and state changes the drive makes by itself in between
+            for _ in range(60 if args.tier == "quick" else 600):
+                tg = []
+                for _ in range(rng.randrange(2, 6)):
+                    tg.append(rng.choice(STATES[1:6]))
+                    if rng.random() < 0.5:
+                        tg.append("!" + rng.choice(["FAULT", "SWITCH ON DISABLED", "READY TO SWITCH ON"]))
+                cases.append({"kind": "state", "init": rng.choice(STATES), "auto_after": rng.choice([0, 1, 3]),
+                              "lag": rng.choice([0, 1, 2, 3]) if transport == "sdo" else 0, "extra": rng.random() < 0.5, "transport": transport,
+                              "targets": tg})
             # histories: several targets in a row on one node
             for _ in range(40 if args.tier == "quick" else 600):
                 cases.append({"kind": "state", "init": rng.choice(STATES), "auto_after": rng.choice([0, 1, 2, 3, 5, 8]),
